@@ -317,6 +317,9 @@ def matrix_cases():
         ((), ("insert", "items", 0, {"n": 5})), ((), ("insert", "items", -1, {"n": 5})), ((), ("insert", "items", -1, {"n": 55})),
         ((), ("insert", "items", 9, {"n": 55})), ((), ("insert", "items", -9, {"n": 3})), ((), ("insert", "items", 1, 7)),
         ((), ("setidx", "items", 0, {"n": 6})), ((), ("setidx", "items", 0, {"n": -1})), ((), ("setidx", "items", 7, {"n": 6})),
+        # partially acceptable maps: one key is fine, the other is not (either order), or the required key is missing
+        ((), ("setidx", "items", 0, {"s": "zz", "n": -1})), ((), ("setidx", "items", 1, {"n": 4, "s": "TOOLONG"})),
+        ((), ("setidx", "items", 0, {"s": "new"})), ((), ("append", "items", {"s": "zz", "n": 44})), ((), ("insert", "items", 0, {"n": 4, "s": 5})),
         ((("item", "items", 0),), ("set", "n", 8, "attr")), ((("item", "items", 1),), ("set", "n", "bad", "attr")),
         ((("item", "items", 0),), ("set", "s", "TOOLONG", "attr")),
         ((), ("load", {"n": 9, "s": "loaded"}, True)), ((), ("load", {"n": 9, "s": None}, True)), ((), ("load", {"s": 1, "n": 2}, True)),
